@@ -18,7 +18,8 @@ for d in sorted(glob.glob(os.path.join(V, "seeded", "*"))):
     ok = m.get("confirmed_in_scratch_worktree", {}).get("applies_builds_and_existing_tests_pass")
     rows.append("| %s | %s | %s | %s | %s |" % (os.path.basename(d), m.get("property", ""), summ, "yes" if ok else "no", how))
 table = "### 0.7 Which check catches which seeded change\n\n| change | property | what it does | existing tests pass | `./check <id> quick` |\n|---|---|---|---|---|\n" + "\n".join(rows) + "\n"
-status = open(os.path.join(V, "tools", "_status_section.md")).read() + table
+status = open(os.path.join(V, "tools", "_status_section.md")).read()
+status = status.replace("<!-- SEEDTABLE -->", table) if "<!-- SEEDTABLE -->" in status else status + table
 dp = os.path.join(V, "DESIGN.md")
 s = open(dp).read()
 b, e = "<!-- STATUS-BEGIN -->", "<!-- STATUS-END -->"
